@@ -100,6 +100,7 @@ pub fn mirror_scenario(prop: &str, seed: u64, index: u64) -> Option<Scenario> {
         max_iters: 150,
         min_frac: 0.05,
         goal_sampler: Some(GoalSampler::Fixed),
+        library_metric: true,
         query_budget: 2e4,
         canonical_only: true,
         ..Default::default()
